@@ -34,6 +34,7 @@ THEOREMS = [
     "IrVerif.PassInfra.C14_functionalize_fresh",
     "IrVerif.PassInfra.C14_sequential_modified",
     "IrVerif.PassInfra.C14_manager_modified",
+    "IrVerif.PassInfra.C14_manager_pass_modified",
     "IrVerif.PassInfra.C14_manager_steps",
     "IrVerif.PassInfra.C14_rounds",
     "IrVerif.PassInfra.C14_fixpoint",
@@ -44,6 +45,10 @@ THEOREMS = [
     "IrVerif.PassInfra.ClearMeta.C14_fix_clear",
     "IrVerif.PassInfra.ClearMeta.C14_measure_clear",
     "IrVerif.PassInfra.InitInputs.C14_rm_init_measure",
+    "IrVerif.PassInfra.InitInputs.C14_rm_init_contract",
+    "IrVerif.PassInfra.InitInputs.C14_add_init_flag",
+    "IrVerif.PassInfra.Dce.C14_dce_measure",
+    "IrVerif.PassInfra.Dce.C14_dce_contract",
     "IrVerif.PassInfra.C14_flag_sort",
     "IrVerif.PassInfra.CApi.C14_c_api_restore",
     "IrVerif.PassInfra.CApi.C14_c_api_no_fault_outcome",
@@ -53,7 +58,8 @@ THEOREMS = [
 ASSUMPTIONS = [
     "passes are modelled as arbitrary functions of an abstract world (identity rule, manager flag, rounds) or "
     "as counting traversals over an abstract rewrite system; only ClearMetadataAndDocString, the "
-    "TopologicalSort flag and Remove/AddInitializers{From,To}Inputs have concrete transcribed models",
+    "TopologicalSort flag, Remove/AddInitializers{From,To}Inputs and RemoveUnusedNodes on graphs without subgraphs "
+    "(without the schema-driven optional-output removal) have concrete transcribed models",
     "C14_rounds/C14_fixpoint assume a measure that decreases when modified=True and an honest False flag; "
     "for the built-in passes both are checked by the oracle on generated models, not proved "
     "(schema-driven passes, CSE, inliner, name fixing: differential only)",
@@ -537,7 +543,7 @@ _BINARY = ["Add", "Mul", "Sub"]
 class ModelGen:
     """Structured generator of mostly checker-valid models (see module docstring)."""
 
-    def __init__(self, seed, *, messy_names=False, unsorted=False):
+    def __init__(self, seed, *, messy_names=False, unsorted=False, sub_unsorted=False):
         import onnx_ir as ir
 
         self.ir = ir
@@ -545,6 +551,7 @@ class ModelGen:
         self.n = 0
         self.messy = messy_names
         self.unsorted = unsorted
+        self.sub_unsorted = sub_unsorted  # only nested subgraphs are out of order
         self.F = ir.DataType.FLOAT
         self.functions = []
 
@@ -655,7 +662,7 @@ class ModelGen:
                     shape = (1, 64) if which == "value_large" else (1, 2)
                     arr = np.full(shape, float(r.randrange(2)), dtype=np.float32)
                     node = ir.node("Constant", [], {"value": ir.tensor(arr)}, name=self.name("n"))
-            elif k < 0.95 and depth < 2 and cond is not None:
+            elif k < (0.99 if self.sub_unsorted else 0.95) and depth < 2 and cond is not None:
                 subs = []
                 for _b in range(2):
                     subs.append(self.graph(avail, cond, depth + 1, False))
@@ -686,6 +693,8 @@ class ModelGen:
             outputs.append(outputs[0])  # the same value twice
         if self.unsorted and len(nodes) > 1 and r.random() < 0.7:
             r.shuffle(nodes)
+        if self.sub_unsorted and depth > 0 and fn_inputs is None and len(nodes) > 1:
+            nodes.reverse()
         g = ir.Graph(
             inputs,
             outputs,
@@ -717,8 +726,13 @@ class ModelGen:
         return m
 
 
+FLAVOURS = ["plain", "plain", "unsorted", "messy", "subunsorted", "plain"]
+
+
 def build_model(seed, flavour="plain"):
-    return ModelGen(seed, messy_names=flavour == "messy", unsorted=flavour == "unsorted").model()
+    return ModelGen(
+        seed, messy_names=flavour == "messy", unsorted=flavour == "unsorted", sub_unsorted=flavour == "subunsorted"
+    ).model()
 
 
 def pass_table():
@@ -905,12 +919,13 @@ def names_view(model):
                 if v is not None:
                     vals[id(v)] = v
             for v in n.outputs:
-                if v.uses() or v.is_graph_output():
-                    vals[id(v)] = v
+                if v.uses() or v.is_graph_output() or v.name:
+                    vals[id(v)] = v  # every named output is written to the proto, used or not
         names = {}
         for v in vals.values():
             if not v.name:
-                all_named = False
+                if v.uses() or v.is_graph_output() or v.producer() is None:
+                    all_named = False
             elif v.name in names and names[v.name] is not v and v.graph is names[v.name].graph and (
                 v.producer() is None or names[v.name].producer() is None or v.producer().graph is names[v.name].producer().graph
             ):
@@ -1176,6 +1191,82 @@ def _concrete_request(part, reqs, case, extra, r, model):
         )
 
 
+# ---- RemoveUnusedNodesPass on flat graphs vs the Lean counting-pass instance `Dce`
+
+
+def dce_case(part: Part, reqs: list, seed: int) -> None:
+    import onnx_ir as ir
+    import onnx_ir.passes.common as cp
+
+    r = random.Random(f"dce:{seed}")
+    F = ir.TensorType(ir.DataType.FLOAT)
+    vid, nid = {}, {}
+
+    def reg(v):
+        vid[id(v)] = len(vid)
+        return v
+
+    inputs = [reg(ir.Value(name=f"x{i}", shape=ir.Shape([2]), type=F)) for i in range(r.randint(1, 2))]
+    inits = []
+    for i in range(r.choice([0, 1, 2, 3])):
+        w = reg(ir.Value(name=f"w{i}", const_value=ir.tensor(np.zeros(2, dtype=np.float32), name=f"w{i}"), shape=ir.Shape([2]), type=F))
+        inits.append(w)
+    graph_inputs = list(inputs) + [w for w in inits if r.random() < 0.2]
+    avail = list(inputs) + list(inits)
+    nodes = []
+    for j in range(r.randint(0, 7)):
+        k = r.random()
+        if k < 0.35:
+            n = ir.node(r.choice(["Relu", "Identity", "Neg"]), [r.choice(avail)], name=f"n{j}")
+        elif k < 0.65:
+            n = ir.node("Add", [r.choice(avail), r.choice(avail)], name=f"n{j}")
+        else:
+            ins = [r.choice(avail), r.choice([None, None, r.choice(avail)]), r.choice([None, None, r.choice(avail)])]
+            n = ir.node("Clip", ins[: r.choice([1, 2, 3, 3])], name=f"n{j}")
+        n.outputs[0].name = f"v{j}"
+        n.outputs[0].shape = ir.Shape([2])
+        n.outputs[0].type = F
+        reg(n.outputs[0])
+        nid[id(n)] = j
+        nodes.append(n)
+        avail.append(n.outputs[0])
+    produced = [n.outputs[0] for n in nodes]
+    outs = r.sample(produced, k=min(len(produced), r.choice([0, 1, 1, 2])))
+    if r.random() < 0.15:
+        outs.append(r.choice(inputs + inits))
+    if r.random() < 0.25:
+        r.shuffle(nodes)
+    g = ir.Graph(graph_inputs, outs, nodes=nodes, initializers=inits, opset_imports={"": 20}, name="g")
+    model = ir.Model(g, ir_version=10)
+
+    def state():
+        return {
+            "nodes": [
+                {"id": nid[id(n)], "inputs": [None if v is None else vid[id(v)] for v in n.inputs], "outputs": [vid[id(v)] for v in n.outputs]}
+                for n in g
+            ],
+            "outs": [vid[id(v)] for v in g.outputs],
+            "ins": [vid[id(v)] for v in g.inputs],
+            "inits": [vid[id(v)] for v in g.initializers.values()],
+        }
+
+    p = cp.RemoveUnusedNodesPass()
+    for rnd in range(4):
+        before = state()
+        res = p(model)
+        after = state()
+        reqs.append(
+            (
+                {"m": "passinfra.dce", **before},
+                {"modified": bool(res.modified), "nodes": after["nodes"], "inits": after["inits"]},
+                {"model": "dce", "seed": seed, "round": rnd},
+            )
+        )
+        if not res.modified:
+            break
+    part.case(["dce", seed], bool(nodes), {"dce_seed": seed} if seed % 97 == 0 else None, dce_rounds=rnd + 1, dce_nodes=min(len(nodes), 8))
+
+
 # ---- PassManager compositions of built-in passes, tied to the Lean manager model
 
 
@@ -1394,6 +1485,8 @@ def _worker(job):
                 apply_pass_case(part, reqs, seed, flavour, name, mk)
             elif kind == "compose":
                 compose_case(part, reqs, it)
+            elif kind == "dce":
+                dce_case(part, reqs, it)
             elif kind == "boundary":
                 boundary_case(part, *it)
         except Exception as e:  # noqa: BLE001 - harness bug: surface it, never hide
@@ -1501,12 +1594,13 @@ def run(ctx: Ctx) -> None:
     nmodels = ctx.pick(240, 2400)
     for k in range(nmodels):
         seed = rng.randrange(10**9)
-        flavour = ["plain", "plain", "plain", "unsorted", "messy"][k % 5]
+        flavour = FLAVOURS[k % len(FLAVOURS)]
         for pi in range(npass):
             items.append((seed, flavour, pi))
     rng.shuffle(items)
     jobs += [("pass", c) for c in _chunks(items, 64)]
     jobs += [("compose", c) for c in _chunks([rng.randrange(10**9) for _ in range(ctx.pick(800, 8000))], 8)]
+    jobs += [("dce", c) for c in _chunks([rng.randrange(10**9) for _ in range(ctx.pick(1500, 15000))], 8)]
     # D: every pass x {ok, lazy tensor raises, serialization raises, call raises}
     bitems = []
     for _ in range(ctx.pick(150, 1500)):
